@@ -107,6 +107,10 @@ def make_body(name, script, rec):
                     _, n, kind = a
                     if rinfo is not None and rinfo.retry_number < n:
                         raise EXN[kind]("fail%d" % rinfo.retry_number)
+                elif op == "raise_seq":
+                    # raise the k-th exception object of the list on the execution with retry number k
+                    if rinfo is not None and rinfo.retry_number < len(a[1]):
+                        raise a[1][rinfo.retry_number]
                 elif op == "raise":
                     raise EXN[a[1]](a[2] if len(a) > 2 else "boom")
                 elif op == "set":
